@@ -28,6 +28,7 @@ LISTS = {
     'G2': f'usize, {V}<Cm>',
     'FL1': 'u32, float',                       # floating point: == is not bitwise (+0.0 == -0.0)
     'FL2': f'{F}<double>, u64',
+    'FL3': f'usize, {V}<float>',
     'R1': f'u32, {F}<u32>',                     # one trivially swappable/assignable run of 4 + 4n bytes, n up to 15 (C11)
 }
 TWO_SPAN = {'F2', 'V3', 'M1'}
@@ -321,6 +322,9 @@ def c03(tier, seed):
 def c04(tier, seed):
     obs = pool_layout('C04', tier, seed)
     obs += pool_seq('C04', ['V1', 'V3', 'M1', 'F2'] if tier == 'quick' else CORE, tier, ops_filter=['OP_ERASE', 'OP_RESERVE'] if tier == 'quick' else None)
+    obs += pool_copy('C04', ['F1', 'F2', 'M1'] if tier == 'quick' else ['F1', 'F2', 'M1', 'N1', 'N3', 'V1'], tier, akinds=('ae', 'st-ne'), ops=['OP_SWAP', 'OP_MOVE_ASSIGN', 'OP_COPY_ASSIGN'])
+    for o in obs:
+        if o['harness'] in ('h_seq.cpp', 'h_copy.cpp'): o['also'] = {'C01': 'C04', 'C09': 'C04'}   # span counts / get_fixed_size / field placement are C04's clauses
     return obs
 
 
@@ -454,7 +458,7 @@ ATTR['h_cmp.cpp'] = attribute_cmp
 
 
 def c13(tier, seed):
-    lists = ['E1', 'E2', 'E3', 'E4', 'G1', 'G2', 'P2', 'V1', 'FL1', 'FL2'] + ([] if tier == 'quick' else ['E5', 'F2', 'M1', 'N1'])
+    lists = ['E1', 'E2', 'E3', 'E4', 'G1', 'G2', 'P2', 'V1', 'FL1', 'FL2', 'FL3'] + ([] if tier == 'quick' else ['E5', 'F2', 'M1', 'N1'])
     obs = []
     for lid in lists:
         obs.append(cmp_ob('C13', lid, 1, smax=(1 if lid in TWO_SPAN else None)))
@@ -546,10 +550,13 @@ def c19(tier, seed):
             d = [f'-DLIST={LISTS[lid]}', f"-DK0={2 if tier == 'quick' or lid in TWO_SPAN else 3}", f'-DWITH_ELEM={with_elem}'] + (['-DSMAX=1'] if lid in TWO_SPAN else [])
             obs.append(dict(prop='C19', name=f"const/{lid}/{'elem' if with_elem else 'vec'}", harness='h_const.cpp', defines=d, entry='h_entry',
                             cfg=dict(slack='min', budget_s=900), list=lid))
+    for lid in (['V1', 'F1', 'N2'] if tier == 'quick' else CORE):
+        d = [f'-DLIST={LISTS[lid]}', '-DK0=1', '-DWITH_ELEM=0', '-DAFLAGS=AF_SOCCC'] + (['-DSMAX=1'] if lid in TWO_SPAN else [])
+        obs.append(dict(prop='C19', name=f"const/{lid}/vec-soccc", harness='h_const.cpp', defines=d, entry='h_entry', cfg=dict(slack='min', budget_s=900), list=lid))
     return obs
 
 
-EMPLACE_PAIRS = {1: 'u32->u32', 2: 'i32->u32', 3: 'u8->bool', 4: 'bool->u8', 5: 'ToColor->enum', 6: 'i32->float', 7: 'u64->double', 8: 'i32->W(int)',
+EMPLACE_PAIRS = {13: 'Ms->Tn (converting move constructor not noexcept)', 1: 'u32->u32', 2: 'i32->u32', 3: 'u8->bool', 4: 'bool->u8', 5: 'ToColor->enum', 6: 'i32->float', 7: 'u64->double', 8: 'i32->W(int)',
                  9: 'Ms->Tm (move counting)', 10: 'u16->i32', 11: 'i32->u8', 12: 'float->float'}
 EMPLACE_FORMS = {1: 'contiguous lvalue', 2: 'contiguous const lvalue', 3: 'contiguous rvalue', 4: 'C array', 5: 'std::array', 6: 'node range lvalue',
                  7: 'node range rvalue', 8: 'generated range', 9: 'pointer', 10: 'move_iterator', 11: 'forward iterator', 12: 'generated iterator'}
@@ -561,7 +568,7 @@ def c15(tier, seed):
         for form in EMPLACE_FORMS:
             for varying in (0, 1):
                 if varying and form >= 9: continue      # a VaryingSize argument must be a range
-                if tier == 'quick' and varying and pair not in (1, 3, 8, 9): continue
+                if tier == 'quick' and varying and pair not in (1, 3, 8, 9, 13): continue
                 d = [f'-DPAIR={pair}', f'-DFORM={form}', f'-DVARYING={varying}']
                 obs.append(dict(prop='C15', name=f"emplace/p{pair}/f{form}/{'vary' if varying else 'fixed'}", harness='h_emplace.cpp', defines=d, entry='h_entry',
                                 cfg=dict(slack='min', budget_s=600)))
@@ -577,10 +584,39 @@ def obligations(prop, tier, seed):
     return dedup(obs)
 
 
+MODE_B = dict(elements_pre_state='0..3 (0..2 for lists with two spans), complete case split', span_length='0..2 objects (0..1 on two-span lists in some shapes), complete case split',
+              capacity='0..4 symbolic', varying_byte_budget='0..64 symbolic', values='full width symbolic', erase_positions='complete case split',
+              fresh_memory='every byte an unconstrained solver variable (junk)', block_base='aligned to exactly the storage alignment and no more',
+              step_budget_per_path=400000, query_timeout_s='20 incremental + 300 fresh solver, then the obligation is inconclusive (exit 2)')
+MODE_A = dict(elements='2 (1..3 in the thorough tier, 3 for all-fixed tail shapes)', span_length='0..65535 symbolic for lists with <= 1 symbolic span, 0..64 (thorough core lists 0..255) for 2 symbolic spans; '
+              'lists with >= 3 symbolic spans are not run (no solver verdict within budget)', extra_budget='0..63 bytes symbolic', block_base='both residues: aligned to 2^24 and to exactly S',
+              payload_memcpy='abstracted to its bounds check (count and plain fields are stored and re-loaded for real)',
+              family='<= 3 payload parameters x {plain, FixedSize, VaryingSize} x object size {1,2,4,12,16} x AlignAs {1,2,4,8,16,32}; quick: 8 core lists + 14 shaped + 8 tail-shaped + 10 seeded members, '
+                     'thorough: all 128 shaped + 32 tail-shaped + 160 seeded members')
+SPECIFIC = {
+    'C01': dict(histories='emplace^k ; op ; [emplace] ; op ; [emplace] (thorough: all 36 ordered pairs of operations)'),
+    'C02': dict(mode_a=MODE_A, mode_b='BOUNDS checks on every path of the history and copy shapes'),
+    'C03': dict(mode_a=MODE_A), 'C04': dict(mode_a=MODE_A), 'C05': dict(mode_a=MODE_A, allocator_kinds='always-equal, stateful unequal, propagating unequal (thorough: + equal instances)'),
+    'C06': dict(lists='N1, N2, N3 (instrumented non-trivial type Tr)'),
+    'C07': dict(allocator_kinds='always-equal, stateful unequal, propagating unequal (thorough: + equal instances)'),
+    'C08': dict(traits='all 16 combinations of POCCA/POCMA/POCS/SOCCC x equal/unequal instances on V1; reduced on F1/N1 in the quick tier', elements='source 0..1 (thorough 0..2), target 0..1'),
+    'C09': dict(source='0..2 elements', target='0..1 elements (thorough 0..2)', moved_from_use='destroy / clear / assign / swap (case split)'),
+    'C10': dict(reserve_arguments='n 0..4 and b 0..64 symbolic, b >= payload stored', mode_a=MODE_A),
+    'C11': dict(elements='1..3', algorithms='rotate(k), reverse, swap_ranges on 2..3 elements of equal field sizes', long_runs='list R1: fixed size 0..15 (runs of 4..64 bytes)', iterator_offsets='symbolic 64-bit within [0, size()]'),
+    'C12': dict(vector='2 elements', element_sizes='both varying sizes 0..2 independent (smaller->larger and larger->smaller)'),
+    'C13': dict(operands='references/elements: 1 element each; vectors: 0..2 elements each, independent fixed sizes', floats='no NaN (== is not reflexive for NaN)'),
+    'C14': dict(value_domain='{0,1,2} per field (thorough additionally full width for part 3)', triples='3 elements / 3 vectors of 0..2 (third 0..1) elements, spans 0..1'),
+    'C15': dict(lengths='0..2 items', pairs=EMPLACE_PAIRS if 'EMPLACE_PAIRS' in globals() else {}, forms=EMPLACE_FORMS if 'EMPLACE_FORMS' in globals() else {}),
+    'C16': dict(), 'C17': dict(failing_allocations='at most one per run, position chosen by the solver (1st .. k-th)', vectors='capacity 0..2, 0..2 elements; target 0..1 elements'),
+    'C18': dict(ways_to_be_empty=7, follow_up_operations=8), 'C19': dict(shared='vector of 0..2 (thorough 0..3) elements + second vector; a const element'),
+}
+
+
 def bounds(prop, tier):
-    return dict(elements_pre_state='0..3 (0..2 for lists with two spans)', span_length='0..2 objects (complete case split)',
-                capacity='0..4 symbolic', varying_byte_budget='0..64 symbolic', values='full width symbolic',
-                step_budget_per_path=400000, lists={k: LISTS[k] for k in CORE})
+    b = dict(MODE_B)
+    b.update(SPECIFIC.get(prop, {}))
+    b['lists'] = {k: v for k, v in LISTS.items()}
+    return b
 
 
 def assumptions(prop):
